@@ -28,7 +28,8 @@ REL = 1e-9
 
 
 def gen_plan(rng, tier, i, seed):
-    world = WL.one_gene_world(rng, small=True, lfusion=rng.random() < 0.3, rfusion=rng.random() < 0.3)
+    kinds = ["snp", "snp", "mnp"] if rng.random() < 0.4 else ["snp", "snp", "snp", "del", "ins", "mnp"]
+    world = WL.one_gene_world(rng, small=True, lfusion=rng.random() < 0.3, rfusion=rng.random() < 0.3, kinds=kinds)
     g = world["genes"][0]
     # custom neutral region: sometimes a sub-interval of the generated one
     c0, c1 = world["neutral"]
@@ -37,7 +38,7 @@ def gen_plan(rng, tier, i, seed):
         b = rng.randint(c1 - (c1 - c0) // 3, c1)
         world["neutral"] = [a, b]
     smp = {"name": "s0", "genes": {g["name"]: WL._gen_units(rng, g)}, "phase_seed": rng.randint(0, 999),
-           "softclip": rng.choice([0, 0.1, 0.3])}
+           "softclip": rng.choice([0, 0.1, 0.3]), "random_ins": rng.choice([0, 0.1, 0.2])}
     return {"world": world, "samples": {"s0": smp}, "build": rng.choice(["hg19", "hg19", "hg38"]),
             "k": rng.choice([2, 3, 4, 5]), "route": rng.choice(["bam", "yml"]),
             "write_hashseed": rng.choice([0, 1, 2]), "read_hashseed": rng.choice([0, 1, 2, 3, 4]),
@@ -62,7 +63,7 @@ def judge(plan, outcome):
     m = outcome["measure"]
     env = {"route": plan["route"], "k": plan["k"], "build": plan["build"]}
     # (1) the profile sample fed back to itself reads 2.0 wherever the profile has depth
-    for route in ("bam", "yml", "own"):
+    for route in ("bam", "yml", "own", "second_region"):
         r = m["self"][route]
         if r.get("exc"):
             vs.append(_v("profile sample could not be normalised against its own profile", exc=r["exc"],
@@ -249,7 +250,7 @@ def run_segment(seg):
 
     if seg["kind"] == "materialise":
         man = O.materialise(seg["world"], seg["dir"], seg["samples"], build=seg["build"], profile_yaml=True,
-                            extra={"ref_softclip": 0.2})
+                            extra={"ref_softclip": 0.2, "ref_random_ins": 0.15})
         return man
     streams.install_stream_seam()
     from aldy.gene import Gene
@@ -276,6 +277,12 @@ def run_segment(seg):
     shutil.copy(s0, selfs0)
     shutil.copy(s0 + ".bai", selfs0 + ".bai")
     res["self"]["own"] = _measure(gene, s0, man["neutral"], selfs0)
+    # same profile BAM, another custom neutral region, same process
+    c0, c1 = world["neutral"]
+    sh = world["hg38_shift"] if build == "hg38" else 0
+    mid = (c0 + c1) // 2
+    sub = f"{world['contig']['name']}:{c0 + sh + 3}-{mid + sh}"
+    res["self"]["second_region"] = _measure(gene, refbam, sub, selfbam)
     prof, cnr = (refbam, man["neutral"]) if plan["route"] == "bam" else (yml, None)
     res["base"] = _measure(gene, prof, cnr, s0, structure=True)
     k = plan["k"]
